@@ -181,6 +181,18 @@ CHECKS = {
        "rank exactly while a body runs.",
   note="Nothing after a failed operation is compared. The Nanos6 subsystem re-entry rule (C08 carve-out) is part of the "
        "end-to-end reference, see DESIGN.md."),
+ "C17": dict(
+  cat="exploration", ref="DESIGN.md section 3, C17",
+  technique="runtime monitoring end to end: generated mark programs on the real ASan+UBSan libovni, the streams it wrote merged by clock and emulated by the real ovniemu, reference mark view and .pcf label merge as oracle; single misuse/conflict cases must be refused",
+  text="Random programs over ovni_mark_type/label/set/push/pop on 1-4 threads in 1-3 processes (single and stack types, "
+       "labels defined by agreeing subsets of threads, labelled/unlabelled/negative values) interleaved with "
+       "pause/resume/cool/warm and affinity changes run against the real libovni; the events the library wrote are "
+       "merged by clock, emulated with ovniemu -l, and after every event the rows of type 100+t must show the thread's "
+       "value exactly while it is active (thread.prv) and on the CPU where it runs while running (cpu.prv); both .pcf "
+       "files must carry the title and every registered label. Eighteen single misuses/conflicts (pop mismatch, pop on "
+       "empty, zero values, undefined types, push/set on the wrong channel type, redefinitions, title/channel-type/label "
+       "conflicts between threads) must end in a runtime abort or an emulation failure; two controls must pass.",
+  note="Runs whose streams have equal clocks across threads are inconclusive (merge order unspecified)."),
 }
 
 NOT_YET = "check not implemented yet in this revision (work in progress, see DESIGN.md section 3)"
